@@ -122,6 +122,8 @@ def eval_c09g(gb, case, out):
         cls = prealloc
         if genrun.is_arg_swallow(sch, case['cfg'], case['type'], case['mode']):
             cls = 'keep-is-arg-swallow'
+        if case.get('nested_prealloc'):
+            cls = 'nested-container-prealloc'          # F-09h: the preallocation may also exhaust memory (abort)
         if case.get('deep', 0) > 64:
             # F-09f: the emitted decoders of a recursive schema recurse once per nesting level of the input, without bound
             cls = 'recursive-schema-deep-nesting'
@@ -278,7 +280,11 @@ def _evolved_pairs(gb, rng, tier):
             nid = rng.choice(near) if near and rep % 3 != 2 else rng.choice(free)
             nf = dict(id=nid, name='added', req='required', ty=nt, lit=None, default=None, const=None, doc=None, ann={}, idl_req='required')
             dw['fields'].insert(pos, nf)
-            dw['fields'][pos + 1] = dict(dw['fields'][pos + 1], req='required') if not gengen.recursive_ty(W, dw['fields'][pos + 1]['ty']) else dw['fields'][pos + 1]
+            def _refless(t):
+                return t[0] != 'ref' and all(_refless(x) for x in t[1:] if isinstance(x, tuple))
+            if _refless(W.resolve(dw['fields'][pos + 1]['ty'])):
+                # the known field that follows is present in every value (a struct-typed one could make the type uninhabited)
+                dw['fields'][pos + 1] = dict(dw['fields'][pos + 1], req='required')
             v = None
             for _ in range(6):
                 v = gengen.gen_value(rng, W, ty, 3)
